@@ -185,7 +185,7 @@ class Run:
             self.next_tid += 1
 
     # ---- judging ----
-    CHUNK = 2500     # executions recorded, validated and absorbed at a time (bounds memory in the thorough tier)
+    CHUNK = 6000     # executions recorded, validated and absorbed at a time (bounds memory in the thorough tier)
 
     def judge(self) -> None:
         self.monitor_hits = 0
